@@ -215,26 +215,92 @@ def cone_alpha(W):
     return al, lbs, ubs
 
 
-def ldp(G, h):
-    """min ||z|| s.t. G z >= h  (Lawson-Hanson LDP via NNLS).  Returns (z, lb, feasible)."""
-    G = np.asarray(G, float)
-    h = np.asarray(h, float)
+class OracleInconclusive(Exception):
+    """An oracle could not certify its own answer (solver failure): the case is indeterminate, never a verdict."""
+
+
+def _ldp_nnls(G, h):
     K, m = G.shape
-    if np.all(h <= 0):
-        return np.zeros(m), 0.0, True
     E = np.vstack([G.T, h[None, :]])
     f = np.zeros(m + 1)
     f[-1] = 1.0
     u, rn = nnls(E, f, maxiter=100 * K + 500)
     r = E @ u - f
     if abs(r[-1]) < 1e-14:
-        return None, np.inf, False
-    z = -r[:m] / r[-1]
-    # dual lower bound: for lam>=0, ||z|| >= lam.h / ||G'lam||
-    lam = u
+        return None, None
+    return -r[:m] / r[-1], u
+
+
+def _ldp_certificate(G, h, z, lam):
+    """(primal feasible?, dual lower bound): ||z*|| >= lam.h / ||G'lam|| for every lam >= 0."""
+    tol = 1e-9 * max(1.0, float(np.abs(h).max()))
+    feas = bool(np.min(G @ z - h) >= -tol)
+    lam = np.maximum(np.asarray(lam, float), 0.0)
     den = np.linalg.norm(G.T @ lam)
     lb = float(lam @ h / den) if den > 0 else 0.0
-    return z, max(lb, 0.0), True
+    return feas, max(lb, 0.0)
+
+
+def ldp(G, h):
+    """min ||z|| s.t. G z >= h  (Lawson-Hanson LDP via NNLS).  Returns (z, lb, certified).
+
+    certified = z is primal feasible and ||z|| - lb <= 1e-7 (1 + ||z||), both checked with plain arithmetic.  scipy's
+    NNLS occasionally returns a non-optimal point without complaint (seen for a 10-facet cone whose rows had been
+    renormalised, i.e. changed in the last bit); then an SLSQP solve from a feasible start with multipliers recovered by
+    NNLS on the active rows is tried, and if that cannot be certified either the answer is (z or None, lb, False)."""
+    G = np.asarray(G, float)
+    h = np.asarray(h, float)
+    K, m = G.shape
+    if np.all(h <= 0):
+        return np.zeros(m), 0.0, True
+    best_lb = 0.0
+    z, lam = _ldp_nnls(G, h)
+    if z is not None:
+        feas, lb = _ldp_certificate(G, h, z, lam)
+        best_lb = max(best_lb, lb)
+        if feas and np.linalg.norm(z) - lb <= 1e-7 * (1.0 + np.linalg.norm(z)):
+            return z, lb, True
+    # fallback: a feasible start (scaled sum of rows if it is interior), SLSQP, multipliers from the active set
+    z0 = G.sum(axis=0)
+    g0 = G @ z0
+    pos = h > 0
+    if np.all(g0[pos] > 0):
+        z0 = z0 * float(np.max(h[pos] / g0[pos]))
+        if np.min(G @ z0 - h) >= -1e-12:
+            res = minimize(lambda x: 0.5 * x @ x, z0, jac=lambda x: x, method="SLSQP",
+                           constraints=[{"type": "ineq", "fun": lambda x: G @ x - h, "jac": lambda x: G}],
+                           options={"maxiter": 500, "ftol": 1e-15})
+            zz = np.asarray(res.x, float)
+            viol = float(np.min(G @ zz - h))
+            if viol < 0:  # pull back into the feasible set along z0 (feasible, and the set is convex)
+                lo_, hi_ = 0.0, 1.0
+                for _ in range(60):
+                    mid = (lo_ + hi_) / 2
+                    if np.min(G @ (zz + mid * (z0 - zz)) - h) >= 0:
+                        hi_ = mid
+                    else:
+                        lo_ = mid
+                zz = zz + hi_ * (z0 - zz)
+            act = np.where(G @ zz - h <= 1e-7 * max(1.0, float(np.abs(h).max())))[0]
+            lam = np.zeros(K)
+            if len(act):
+                la, _ = nnls(G[act].T, zz, maxiter=100 * K + 500)
+                lam[act] = la
+            feas, lb = _ldp_certificate(G, h, zz, lam)
+            best_lb = max(best_lb, lb)
+            if feas and np.linalg.norm(zz) - lb <= 1e-7 * (1.0 + np.linalg.norm(zz)):
+                return zz, lb, True
+            if feas:
+                return zz, best_lb, False
+    return z, best_lb, False
+
+
+def ldp_certified(G, h):
+    """z* of the LDP or OracleInconclusive."""
+    z, lb, ok = ldp(G, h)
+    if not ok:
+        raise OracleInconclusive("LDP solve could not be certified")
+    return z
 
 
 def cover_distance(W, vi, vj):
@@ -242,8 +308,8 @@ def cover_distance(W, vi, vj):
     W = np.asarray(W, float)
     h = np.maximum(0.0, W @ (np.asarray(vi, float) - np.asarray(vj, float)))
     z, lb, feas = ldp(W, h)
-    if not feas:
-        return np.inf, np.inf
+    if z is None:
+        return np.inf, lb
     # primal certificate: scale z so that constraints hold exactly
     if np.all(h <= 0):
         return 0.0, 0.0
